@@ -44,14 +44,34 @@ TypeOf(c) == IF c = DigestComp THEN "d"
 StripDigest(n) == IF Len(n) > 0 /\ n[Len(n)] = DigestComp THEN SubSeq(n, 1, Len(n) - 1) ELSE n
 
 Unbound == "?unbound?"              \* value of a pattern argument that has no value yet
-(* $eq, $eq_type: the library's built-ins. $in, $isv: harness functions (registered by the harness with
-   exactly this meaning). A function not listed holds for nothing. *)
+(* $eq, $eq_type: the library's built-ins. $in, $isv, $ne, $true: harness functions (registered by the
+   harness with exactly this meaning). A function not listed holds for nothing.
+   The identifiers below are the CANONICAL names of the meanings; which meaning an identifier written in a
+   schema has is decided by the function table of the checker that reads it (see Retab). *)
 Fn(f, c, args) ==
   IF f = "$eq" THEN \A j \in 1..Len(args) : args[j] = c
   ELSE IF f = "$eq_type" THEN \A j \in 1..Len(args) : args[j] # Unbound /\ TypeOf(args[j]) = TypeOf(c)
   ELSE IF f = "$in" THEN \E j \in 1..Len(args) : args[j] = c
   ELSE IF f = "$isv" THEN TypeOf(c) = "v"
+  ELSE IF f = "$ne" THEN \A j \in 1..Len(args) : args[j] # c
+  ELSE IF f = "$true" THEN TRUE
   ELSE FALSE
+
+(* Function tables (C11: "user functions").  A checker is constructed with a dictionary of user functions of
+   its own; several checkers may be alive in one process, and the SAME identifier may be given different
+   functions in different dictionaries.  A table tab maps identifiers as written in the schema to canonical
+   meanings (identifiers outside DOMAIN tab keep their canonical meaning).  A checker constructed with table
+   tab reads schema S as Retab(S, tab) - whatever other checkers exist, were constructed before or after it,
+   from the same model object, the same bytes or another compilation. *)
+TabName(tab, f) == IF f \in DOMAIN tab THEN tab[f] ELSE f
+RetabOpt(o, tab) == IF o.k = "f" THEN [k |-> "f", f |-> TabName(tab, o.f), args |-> o.args] ELSE o
+Retab(S, tab) ==
+  [rules |-> [i \in 1..Len(S.rules) |->
+     LET r == S.rules[i] IN
+     [id |-> r.id, name |-> r.name, sign |-> r.sign,
+      cons |-> [a \in 1..Len(r.cons) |-> [b \in 1..Len(r.cons[a]) |->
+                  [pat |-> r.cons[a][b].pat,
+                   opts |-> [q \in 1..Len(r.cons[a][b].opts) |-> RetabOpt(r.cons[a][b].opts[q], tab)]]]]]]]
 
 -----------------------------------------------------------------------------
 (* Static well-formedness (C13).  The errors the documentation names. *)
